@@ -115,6 +115,18 @@ impl ContextData {
         self.chain_index
     }
 
+    /// Verification observer: the level's RNS tool.
+    #[cfg(feature = "verif")]
+    pub fn verif_rns_tool(&self) -> &RNSTool {
+        self.rns_tool.as_ref().unwrap()
+    }
+
+    /// Verification observer: the level's Galois tool.
+    #[cfg(feature = "verif")]
+    pub fn verif_galois_tool(&self) -> &GaloisTool {
+        self.galois_tool.as_ref().unwrap()
+    }
+
     /// The RNS composition/decomposition tool of this level of [ContextData].
     pub(crate) fn rns_tool(&self) -> &RNSTool {
         self.rns_tool.as_ref().unwrap()
